@@ -48,10 +48,7 @@ def rangeScan (typ : Nat) (ver : Nat) (newIdx : List Nat) : Items → Nat → Na
   | .nil, _, lo, hi => some (lo, hi)
   | .text _ r, i, lo, _ => rangeScan typ ver newIdx r (i + 1) lo (i + 1)
   | .elem sh _ r, i, lo, hi =>
-    let ex := match S.findSub typ sh.name ver with
-      | some x => some x
-      | none => S.findSub typ sh.name 0xFFFFFFFF
-    match ex with
+    match S.findSubOr typ sh.name ver with
     | none => rangeScan typ ver newIdx r (i + 1) lo hi
     | some (_, exIdx) =>
       match S.mode (S.commonGroup typ newIdx exIdx) with
